@@ -1,6 +1,9 @@
 import Driver.Util
 import InvProxy.Model.Backoff
 import InvProxy.Model.Bridge
+import InvProxy.Model.Route
+import InvProxy.Model.Seeker
+import InvProxy.Model.Dedup
 open InvProxy Driver
 
 /-- suite `backoff`: `target <n>` ↦ un-jittered target in ns;  `loop <pattern of 0/1>` ↦ retry counts slept with -/
@@ -25,10 +28,66 @@ def bridgeStep (r : Bridge.Reader) : List String → Bridge.Reader × String
     | .err => (r, "err")
   | _ => (r, "bad-op")
 
+/-- `id:p,p;id:p` with hex fields; `-` = no backends, `.` = no prefixes -/
+def parseBackends (s : String) : List Backend :=
+  if s == "-" then [] else
+  (s.splitOn ";").map fun b =>
+    match b.splitOn ":" with
+    | [id, ps] => { BackendID := unhexD id, BackendUser := [], EndUser := [], PathPrefixes := if ps == "." then [] else (ps.splitOn ",").map unhexD }
+    | _ => { BackendID := [], BackendUser := [], EndUser := [], PathPrefixes := [] }
+
+/-- suite `route`: `ms <path> <backends>` ↦ chosen backend id or `none` (through the generated definition) -/
+def routeStep (_ : Unit) : List String → Unit × String
+  | ["ms", p, bs] =>
+    match Gen.store_mostSpecificMatchingBackend (unhexD p) (parseBackends bs) with
+    | some id => ((), hexOf id)
+    | none => ((), "none")
+  | _ => ((), "bad-op")
+
+/-- suite `seeker`: `new <cap>` | `read <n> <d>` | `seek` -/
+def seekerStep (s : Seeker.St) : List String → Seeker.St × String
+  | ["new", c] => (Seeker.init (natD c), "ok")
+  | ["read", n, d] =>
+    let (s', out) := Seeker.read s (natD n) (unhexD d)
+    (s', s!"out {hexOf out} wh={s'.buf.length} rh={s'.readHead}")
+  | ["seek"] =>
+    match Seeker.seek0 s with
+    | some s' => (s', "ok")
+    | none => (s, "refused")
+  | _ => (s, "bad-op")
+
+/-- suite `lru`: `new <cap>` | `t <key>` ↦ hit/miss, evicted key, length -/
+def lruStep (st : Nat × List String) : List String → (Nat × List String) × String
+  | ["new", c] => ((natD c, []), "ok")
+  | ["t", k] =>
+    let (cap, l) := st
+    let hit := l.contains k
+    let l' := Lru.touch cap l k
+    let full := k :: l.erase k
+    let ev := if full.length > l'.length then (full.getLast?).getD "-" else "-"
+    ((cap, l'), s!"{if hit then "hit" else "miss"} evicted={ev} len={l'.length}")
+  | _ => (st, "bad-op")
+
+/-- suite `dedup`: `new <cap>` | `list id…` | `spawned` ↦ sorted spawned IDs -/
+def dedupStep (st : Nat × List String × List String) : List String → (Nat × List String × List String) × String
+  | ["new", c] => ((natD c, [], []), "ok")
+  | "list" :: ids =>
+    let (cap, l, sp) := st
+    let (l', sp') := ids.foldl (Dedup.step cap) (l, sp)
+    ((cap, l', sp'), "ok")
+  | ["spawned"] =>
+    let (_, _, sp) := st
+    (st, " ".intercalate (sp.toArray.qsort (· < ·)).toList)
+  | _ => (st, "bad-op")
+
 def main (args : List String) : IO UInt32 := do
   let stdin ← IO.getStdin
   let stdout ← IO.getStdout
   match args with
   | ["backoff"] => loop stdin stdout backoffStep (); return 0
+  | ["dedup"] => loop stdin stdout dedupStep (0, [], []); return 0
+  | ["route"] => loop stdin stdout routeStep (); return 0
+  | ["seeker"] => loop stdin stdout seekerStep (Seeker.init 0); return 0
+  | ["lru"] => loop stdin stdout lruStep (0, []); return 0
   | ["bridgeconn"] => loop stdin stdout bridgeStep { buffered := [], inbox := [] }; return 0
   | _ => IO.eprintln "usage: ipmodel <suite>"; return 2
